@@ -143,6 +143,14 @@ func execC10(seg []Ev) []Ev {
 			for k := range t.DefaultVariables() {
 				t.DefaultVariables()[k] = "<default>"
 			}
+			// the same map object was rendered before with other values (changed back in place): a rendering reads the map as it is now
+			for k, v := range vars {
+				vars[k] = v + "~"
+			}
+			guarded(func() { t.EvaluateWithVariables(vars) })
+			for k, v := range vars {
+				vars[k] = strings.TrimSuffix(v, "~")
+			}
 			oc, det = guarded(func() { res, err = t.EvaluateWithVariables(vars) })
 			switch {
 			case oc != "ok":
